@@ -49,6 +49,21 @@ CHECKS = {
     'C15': dict(tech='BFS-explored codegen universe; parsed stub (ast) compared with the introspected runtime module and an independent Stone->PEP 484 mapping',
                 text='For every explored model and namespace: classes, attributes, helpers, validators, class aliases, routes, bases, constructor parameters agree between stub and runtime module; annotations equal the reference mapping; every annotation name resolves.',
                 note='ROUTES, dunder and private attributes are outside the comparison.', ref='6/C15'),
+    'C16': dict(tech='BFS-explored codegen universe x {js_types, js_client, tsd_types, tsd_client}; output executed / scanned by purpose-written lexers and declaration scanners',
+                text='For every explored model the four JavaScript / TypeScript backends complete; js_types output is loaded by node and its typedef inventory compared with the model; the .d.ts output is lexed, its declarations scanned and compared with the model (every namespace, struct, union, field, tag and route exactly once, types by an independent Stone->TS mapping, no undeclared name).',
+                note='No TypeScript compiler is installed: well-formedness is decided by the harness\'s own lexer and declaration scanner; three genuine crashes are recorded as known findings.', ref='6/C16'),
+    'C17': dict(tech='BFS-explored codegen universe + complete (type shape x position) product x six Swift / Objective-C backend configurations; output scanned by purpose-written lexers and declaration scanners',
+                text='For every explored model and every (shape, position) spec the six configurations complete; every generated file is lexically well formed (comments, strings with interpolation, balanced brackets); every namespace, type, serializer, field, tag and route is declared exactly once under the backend naming scheme; every user-type name used is declared (per file for Objective-C: @class / @interface / #import).',
+                note='No Swift / Objective-C compiler is installed; five crash classes on type shapes the backends do not handle are recorded as known findings.', ref='6/C17'),
+    'C18': dict(tech='exhaustive enumeration of target paths, emit scripts (BFS by script length) and manifest runs, executed on the real Backend/Compiler classes and stone.cli.main over a scratch file system',
+                text='Every target path up to the segment bound (.., absolute, symlinked, nested) is either written inside the output folder or refused; every emit script up to the length bound yields exactly the bytes an independent pretty-printer predicts; --output-manifest lists exactly the files a real run creates for every backend x rich spec.',
+                note='File-system state is observed by walking the scratch root after every run.', ref='6/C18'),
+    'C19': dict(tech='exhaustive enumeration of command lines (filter expression trees by depth in four renderings, all single-token edits, all -w/-b namespace subsets, all -a attribute subsets) executed on stone.cli.main with a recording backend and on the filter seam',
+                text='Every expression tree within the depth bounds is evaluated on every route of a spec whose routes realise the full product of attribute values (all truth assignments of the atoms) and compared with a reference evaluator; every single-token edit of the base expressions is accepted or refused as a reference recogniser says; every namespace and attribute subset, :all and unknown names give exactly the selected view, with consistent by-name tables.',
+                note='Integer-vs-float and boolean-vs-0/1 literal comparisons are not judged.', ref='6/C19'),
+    'C20': dict(tech='exhaustive enumeration of (spec, whitelist): gadget specs for every dependency edge kind alone and in pairs + BFS-explored models x every subset of route versions x data-type candidates; executed on specs_to_ir(route_whitelist_filter) and python_types import',
+                text='For every (spec, whitelist) the retained data types and routes lie between the must-retain closure L and the may-retain closure U computed on the model; by-name tables agree; nothing retained refers to a removed type; python_types of the filtered API imports with every namespace first and exposes the retained items.',
+                note='Namespace-doc references and docs of doc-pulled routes belong to U only; unreachable aliases with retained targets are not judged.', ref='6/C20'),
 }
 
 NOT_YET = {}
